@@ -758,7 +758,13 @@ func (r *UnitRun) selectField(st *State, base Val, name string, n ast.Node) Val 
 			if n != nil {
 				r.oblige(st, "nil", fmt.Sprintf("sel%d", r.siteOrd[n]), not(eq(base.T, r.prog.World.nilOf(base.Sort))), n, "nil dereference reading ."+name, nil)
 			}
-			return r.lenFact(st, r.fromTerm(sx("select", r.heapTerm(st, fi), base.T), fi.goType))
+			v := r.lenFact(st, r.fromTerm(sx("select", r.heapTerm(st, fi), base.T), fi.goType))
+			if v.K == KSlice {
+				sc := *v.S
+				sc.From = &fieldLoc{r: r, ref: base.T, fi: fi, n: n}
+				v.S = &sc
+			}
+			return v
 		}
 	case KPtr:
 		return r.selectField(st, base.P.load(st), name, n)
